@@ -31,6 +31,11 @@ pub fn build_catalog(spec: &str) -> CatalogImpl {
         let p: Vec<&str> = e.split(',').collect();
         let class = Class::from(p[0].parse::<u16>().unwrap());
         let name = name_of_wire(p[1]);
+        if p[2] == "R" {
+            // `class,name,R`: Catalog::remove of that (name, class) at this point of the configuration history
+            let _ = cat.remove(&name, class);
+            continue;
+        }
         let entry = match p[2] {
             "N" => Entry::NotYetLoaded(name, class, ()),
             "F" => Entry::FailedToLoad(name, class, ()),
